@@ -31,6 +31,10 @@ package props
 
 import (
 	"fmt"
+	"go/ast"
+	"go/parser"
+	"go/token"
+	"path/filepath"
 	"runtime"
 	"sort"
 	"strconv"
@@ -1018,6 +1022,102 @@ func c20Shrink(input string) []string {
 	return out
 }
 
+// ---- regenerated facts --------------------------------------------------------------------
+//
+// GeneFacts.lean: the bounds of the `for n := 0; n < K; n++` loops of the four position /
+// orientation functions (the model's fuel), and the calls that `Exons.Add` makes before its
+// checking loop (the model's make / copy / append / sort.Sort sequence).
+
+func c20CallName(e ast.Expr) string {
+	c, ok := e.(*ast.CallExpr)
+	if !ok {
+		return ""
+	}
+	switch f := c.Fun.(type) {
+	case *ast.Ident:
+		return f.Name
+	case *ast.SelectorExpr:
+		if x, ok := f.X.(*ast.Ident); ok {
+			return x.Name + "." + f.Sel.Name
+		}
+	}
+	return "?"
+}
+
+func geneFacts(repo string) (string, error) {
+	fset := token.NewFileSet()
+	ff, err := parser.ParseFile(fset, filepath.Join(repo, "feat", "feature.go"), nil, 0)
+	if err != nil {
+		return "", err
+	}
+	var bounds []string
+	want := map[string]bool{"BasePositionOf": true, "PositionWithin": true, "BaseOrientationOf": true, "OrientationWithin": true}
+	for _, d := range ff.Decls {
+		fd, ok := d.(*ast.FuncDecl)
+		if !ok || fd.Recv != nil || !want[fd.Name.Name] || fd.Body == nil {
+			continue
+		}
+		var ferr error
+		ast.Inspect(fd.Body, func(n ast.Node) bool {
+			fs, ok := n.(*ast.ForStmt)
+			if !ok {
+				return true
+			}
+			be, ok := fs.Cond.(*ast.BinaryExpr)
+			lit, ok2 := (ast.Expr)(nil), false
+			if ok {
+				lit, ok2 = be.Y, true
+			}
+			bl, ok3 := lit.(*ast.BasicLit)
+			if !ok || !ok2 || !ok3 || be.Op != token.LSS || bl.Kind != token.INT {
+				ferr = fmt.Errorf("%s: unrecognised loop condition at %s", fd.Name.Name, fset.Position(fs.Pos()))
+				return true
+			}
+			bounds = append(bounds, fmt.Sprintf("(%q, %s)", fd.Name.Name, bl.Value))
+			return true
+		})
+		if ferr != nil {
+			return "", ferr
+		}
+	}
+	gf, err := parser.ParseFile(fset, filepath.Join(repo, "feat", "gene", "gene.go"), nil, 0)
+	if err != nil {
+		return "", err
+	}
+	var prologue []string
+	found := false
+	for _, d := range gf.Decls {
+		fd, ok := d.(*ast.FuncDecl)
+		if !ok || fd.Name.Name != "Add" || fd.Recv == nil || fd.Body == nil {
+			continue
+		}
+		found = true
+	stmts:
+		for _, st := range fd.Body.List {
+			switch v := st.(type) {
+			case *ast.AssignStmt:
+				for _, r := range v.Rhs {
+					if n := c20CallName(r); n != "" {
+						prologue = append(prologue, strconv.Quote(n))
+					}
+				}
+			case *ast.ExprStmt:
+				if n := c20CallName(v.X); n != "" {
+					prologue = append(prologue, strconv.Quote(n))
+				}
+			default:
+				break stmts
+			}
+		}
+	}
+	if !found {
+		return "", fmt.Errorf("Exons.Add not found in feat/gene/gene.go")
+	}
+	return fmt.Sprintf("namespace Biogo.Generated\n\n/-- bounds of the depth loops of feat/feature.go, in source order -/\ndef featLoopBounds : List (String × Nat) := [%s]\n\n/-- the calls Exons.Add makes before its checking loop, in source order -/\ndef addPrologue : List String := [%s]\n\nend Biogo.Generated\n",
+		strings.Join(bounds, ", "), strings.Join(prologue, ", ")), nil
+}
+
 func init() {
 	hx.Register(&hx.Prop{ID: "C20", Gen: c20Gen, Exec: c20Exec, Shrink: c20Shrink})
+	hx.RegisterFacts(hx.FactGen{File: "GeneFacts.lean", Gen: geneFacts})
 }
